@@ -157,13 +157,15 @@ func (w *watcher) update(ctx context.Context, global rel.Scope) {
 
 	value, err := w.expr.Eval(ctx, global)
 	if err != nil {
-		w.cancel()
+		// update runs on the engine's own goroutine, the only receiver of the
+		// cancel request: sending it from here would block forever.
+		go w.cancel()
 		w.onclose(err)
 		return
 	}
 
 	if err = w.onupdate(value); err != nil {
-		w.cancel()
+		go w.cancel()
 	}
 }
 
